@@ -59,7 +59,7 @@ CHECKS = {
 }
 
 CHECKS["C12"] = ("exploration",
-                 "Fault injection on the environment: arbitrary byte strings with a high density of prefixes / HALT / I/O opcodes and prefix chains cut off at 0xFFFF, arbitrary register files, IM in {0,1,2,3,-1,7,255,2^31..2^40}, the library's own DumbMemory of length 0..65536, sparse MapMemory, nil IO, short DumbIO, malformed Interrupt values (unknown types, nil/empty/1-4 byte/70000-byte data, prefix-only data, HALT or I/O as mode-0 instruction) raised at Step boundaries and from inside device accesses (also while an acceptance is in progress). Oracles: no panic in any Step or Run; Run returns at the Step in which a Step-driven twin in an identical environment shows an executed HALT or a breakpoint (else it is ended by cancellation); a Step that logged the invalid-code warning made sequential fetches only, advanced PC by exactly that many bytes, and the next Step fetches the next byte.",
+                 "Fault injection on the environment: arbitrary byte strings with a high density of prefixes / HALT / I/O opcodes and prefix chains cut off at 0xFFFF, arbitrary register files, IM in {0,1,2,3,-1,7,255,2^31..2^40}, the library's own DumbMemory of length 0..65536, sparse MapMemory, nil IO, short DumbIO, malformed Interrupt values (unknown types, nil/empty/1-4 byte/70000-byte data, prefix-only data, HALT or I/O as mode-0 instruction) raised at Step boundaries and from inside device accesses (also while an acceptance is in progress); long request data (5..70000 bytes) starts with a seeded instruction, often one that accesses memory; a quarter of the Step-driven worlds hand the library's DumbMemory/MapMemory/DumbIO to the CPU directly instead of behind the recording wrapper (type-specific fast paths only exist for the real types). Oracles: no panic in any Step or Run; Run returns at the Step in which a Step-driven twin in an identical environment shows an executed HALT or a breakpoint (else it is ended by cancellation); a Step that logged the invalid-code warning made sequential fetches only, advanced PC by exactly that many bytes, and the next Step fetches the next byte.",
                  "After an environment fault only totality is demanded (deliberately narrow). 'Unsupported' is decided dynamically from the captured log output of the Step. A Run that ignores cancellation ends the scenario without verdict (that is C13's subject). The real-goroutine watcher of Run makes the number of Steps after cancel() schedule dependent; nothing is compared after it.",
                  "deterministic simulation: environment fault injection (degraded devices, malformed requests at chosen instants) + totality/recover oracle",
                  "DESIGN.md 4 C12",
@@ -75,7 +75,7 @@ CHECKS["C10"] = ("fault_enumeration",
                  ["durable state = States + memory image + pending request + device cursors + HALT flag"])
 
 CHECKS["C18"] = ("exploration",
-                 "Generated CP/M programs (1-20 items: function 2, function 9 with strings of length 0..4096 of every byte value but '$' at non-overlapping addresses, filler, OUT to ports != 0, IN, finally JP 0 or an unsupported function) run on the real tinycpm.Memory/IO from the working tree with a simulated console. Fault-free console: bytes received = BDOS specification, exactly (exactly-once, ordered), also across Run re-entries after breakpoints on every return address, cancellations in the middle of a string (synctest bubble, so the cancellation instant is exact) and NMI / mode-1 requests served by transparent handlers inside the BDOS loop. Under injected console faults (Write returns (0,err), (0,nil) or (n,err) on chosen calls) the relaxation is narrow: accepted bytes form a subsequence of the expected stream and only failed calls' payload may be missing. Also: SP and caller code intact at every return, end state halted at 0xFF03, >= 1 warning line per offending port access and none otherwise.",
+                 "Generated CP/M programs (1-20 items: function 2, function 9 with strings of length 0..4096 of every byte value but '$' at non-overlapping addresses, filler, OUT to ports != 0, IN, finally JP 0 or an unsupported function) run on the real tinycpm.Memory/IO from the working tree with a simulated console. Fault-free console: bytes received = BDOS specification, exactly (exactly-once, ordered), also across Run re-entries after breakpoints on every return address, cancellations in the middle of a string (synctest bubble, so the cancellation instant is exact) and NMI / mode-1 requests served by transparent handlers inside the BDOS loop. Under injected console faults (Write returns (0,err), (0,nil) or (n,err) on chosen calls) the relaxation is narrow: accepted bytes form a subsequence of the expected stream and only failed calls' payload may be missing. A quarter of the interrupt-free programs run with a tight stack (exactly the one slot a CALL needs behind the program image or the last string); code and strings are compared at the end. Also: SP and caller code intact at every return, end state halted at 0xFF03, >= 1 warning line per offending port access and none otherwise.",
                  "BDOS specification is three lines (fn 2 -> [E]; fn 9 -> bytes at DE up to '$'). Unsupported function numbers: only 'no panic, Run returns' is demanded (statement silent).",
                  "deterministic simulation: real tinycpm devices, fault-injecting console writer, host re-entry/cancel/interrupt events",
                  "DESIGN.md 4 C18",
@@ -83,8 +83,8 @@ CHECKS["C18"] = ("exploration",
                  ["BDOS behaviour as in the property statement"])
 
 CHECKS["C13"] = ("fault_enumeration",
-                 "Every scenario runs in a testing/synctest bubble. Run's goroutine enters simulator code at every bus access; there the simulator fires the cancellation (cancel() on Run's own goroutine, from a second goroutine, a fake-clock deadline with simulated per-access latency, an already cancelled context, or never) and calls synctest.Wait(), which returns only when Run's watcher, context's propagation goroutines and the canceller are durably blocked or gone: 'the watcher has published' is a known instant. Slow watchers are produced through the caller-supplied context (SimCtx) whose n-th Err() call is held for j further accesses. Cancellation instants: a window of consecutive ticks (so every access phase inside an instruction is hit) plus seeded ones, per program class (2-byte JR loop, DJNZ nest, LDIR with BC=0 in a loop, IN/OUT loop, structured terminating programs with interrupts and breakpoints). Oracles: returned error is the context's error unless the stop rule fired at that very Step (never nil otherwise); bounded liveness: at most 65536 Steps start after publication; the CPU equals a Step-driven twin after a whole number of Steps (a return tick inside a twin Step = stopped mid-instruction) and does not change after Run returned; no goroutine left: contexts are never cancelled by the harness afterwards and the bubble must end without the deadlock panic (also after 200-10000 consecutive Run calls). The same bubbles also run in the -race binary, plus a labelled free-running side-car (cancel from a real second goroutine at spread instants) that asserts only the detector's verdict and the error value, never a delay.",
-                 "Liveness bound is deliberately generous (65536 Steps) so that a legitimate 'poll every n Steps' optimisation does not alarm (checked: a poll-every-64 variant stays quiet). With an already-cancelled context the very first Step races with the watcher by design (no seam before the first access): both outcomes are accepted and excluded from the replayable statistics. Process-wide goroutine counts are not used as an oracle (the runtime starts helper goroutines lazily; it was flaky) - the bubble-scoped deadlock panic is. The race side-car is runtime monitoring, outside the family.",
+                 "Every scenario runs in a testing/synctest bubble. Run's goroutine enters simulator code at every bus access; there the simulator fires the cancellation (cancel() on Run's own goroutine, from a second goroutine, a fake-clock deadline with simulated per-access latency, an already cancelled context, or never) and calls synctest.Wait(), which returns only when Run's watcher, context's propagation goroutines and the canceller are durably blocked or gone: 'the watcher has published' is a known instant. Slow watchers are produced through the caller-supplied context (SimCtx) whose n-th Err() call is held for j further accesses. Cancellation instants: a window of consecutive ticks (so every access phase inside an instruction is hit) plus seeded ones, per program class (2-byte JR loop, DJNZ nest, LDIR with BC=0 in a loop, IN/OUT loop, structured terminating programs with interrupts and breakpoints). Oracles: returned error is the context's error unless the stop rule fired at that very Step (never nil otherwise); bounded liveness: at most 65536 Steps start after publication; the CPU equals a Step-driven twin after a whole number of Steps (a return tick inside a twin Step = stopped mid-instruction) and does not change after Run returned; no goroutine left: contexts are never cancelled by the harness afterwards and the bubble must end without the deadlock panic (also after 200-10000 consecutive Run calls). Cancellation instants also bracket the Step that halts / reaches a breakpoint, and a cancelled Run is resumed by a second Run whose end state must equal repeated Step. The same bubbles also run in the -race binary, plus two labelled side-cars whose goroutine schedule the simulator does not own: free-running cancellation from a real second goroutine (asserts only the detector's verdict and the error value, never a delay), and 'reuse' (one CPU object, 50-300 rounds of: short Run, host cancels that context after the Run returned, long Run with a live context must end at its HALT with nil in the Step-twin's state).",
+                 "Liveness bound is deliberately generous (65536 Steps) so that a legitimate 'poll every n Steps' optimisation does not alarm (checked: a poll-every-64 variant stays quiet). With an already-cancelled context the very first Step races with the watcher by design (no seam before the first access): both outcomes are accepted and excluded from the replayable statistics. Process-wide goroutine counts are not used as an oracle (the runtime starts helper goroutines lazily; it was flaky) - the bubble-scoped deadlock panic is. The race side-car and the reuse side-car are runtime monitoring of uncontrolled schedules, outside the family: there is no seam between a stale watcher's wake-up and its store, so that interleaving cannot be forced; their replay file is the stress scenario, re-executed up to 6 times for confirmation.",
                  "deterministic simulation: synctest bubble (fake clock, quiescence) + device-callback yield points + caller-supplied context as a second seam; enumerated cancellation instants",
                  "DESIGN.md 4 C13",
                  "5 of 6 scenarios: one bubble = 4-12 Run calls on fresh CPUs, each cancelled at its own tick (half of them consecutive ticks), parent context in {Background, WithCancel, WithTimeout, nested, SimCtx with held Err call}, cancel by {self, other goroutine, fake-clock deadline, pre-cancelled, never}; 1 of 6: 200-10000 consecutive Run calls for leak accounting; race-binary workers: half bubbles, half free-running; distinct non-trivial = (scenario, cancellation instant) pairs in which Run was actually ended by the cancellation",
